@@ -237,6 +237,10 @@ def check_site(r, rule, nn, site, mode, spaceA, spaceB, self_policy, equal_lengt
             rep.require(False, f"{q}:{site.line}: candidates are looked up by key, but the key source {site.extra.get('key_source', '')} is not a recognised edit ball / variant generator; "
                                f"the implied {nk.replace('*', '')} <= {nt} bound cannot be decided")
             continue
+        if hit is None and unknown:
+            # a guard of this site is outside the lemma table (already recorded as 'cannot decide'): it may be the missing bound in a spelling
+            # the table does not have - its absence is not established
+            continue
         rep.ob(rule + "-FGA", con, hit is not None, f"a pair is kept only if {nk.replace('*','')} distance <= {nt} (mode {mname})", where,
                expected=f"{nk} <= {nt}", found="; ".join(f"{k} {keep} {tc}{'' if same else ' (other operands)'}" for k, keep, tc, same in found) or "no threshold guard",
                key=f"{K} needs {nk}<={nt}")
